@@ -288,6 +288,13 @@ def run_case(ns, mon, case):
             else:
                 params[int(rng.integers(len(params)))].zero_()
             kinds.append(["zo", "zm", "zt"][which]); events.append(["zero_grad(optimizer)", "zero_grad(module)", "zero_(tensor)"][which])
+            if which == 0:
+                counters["zero_grad_checks"] = counters.get("zero_grad_checks", 0) + 1
+                left = [i for i, p in enumerate(opt_params) if p._grad is not None and np.any(p._grad != 0)]
+                if left:
+                    viol.append(V(f"{kind}:zero_grad-left-a-gradient" + (":frozen-parameter" if any(not opt_params[i].requires_grad for i in left) else ""),
+                                  "optimizer.zero_grad() left a non-zero gradient on a parameter it holds (frozen parameters included: their stale "
+                                  "gradient would be added to the next one after unfreezing)", hp=hp, events=events[-8:], which=left))
             last_was_step = False
         elif r < 0.90:
             i = int(rng.integers(npar))
